@@ -29,6 +29,7 @@ import (
 	"github.com/openbao/openbao/v2/internal/audit"
 	auditFile "github.com/openbao/openbao/v2/internal/builtin/audit/file"
 	"github.com/openbao/openbao/v2/internal/command/server"
+	"github.com/openbao/openbao/v2/internal/helper/configutil"
 )
 
 type c11LifeDev struct {
@@ -120,13 +121,15 @@ func (l *c11Life) opts() vOpts {
 		}},
 		Credential: map[string]logical.Factory{"c11cred": func(context.Context, *logical.BackendConfig) (logical.Backend, error) {
 			return &c11Backend{w: w, name: "auth/vcred/", typ: logical.TypeCredential, login: []string{"login"}}, nil
+		}, "userpass": func(context.Context, *logical.BackendConfig) (logical.Backend, error) { // a type name with user lockout
+			return &c11Backend{w: w, name: "auth/vuserpass/", typ: logical.TypeCredential, login: []string{"login"}}, nil
 		}},
 	}
 }
 
 // adopt prepares a freshly booted / restarted core for the monitor.
 func (l *c11Life) adopt(v *vCore) {
-	v.Core.rawConfig.Store(&server.Config{UnsafeAllowAPIAuditCreation: true})
+	v.Core.rawConfig.Store(&server.Config{UnsafeAllowAPIAuditCreation: true, SharedConfig: &configutil.SharedConfig{}})
 	c11InstallProxies(l.t, l.w, v.Core)
 	// Let the lease restore of a restarted core finish before anything else happens: shutting a core
 	// down in the middle of it can hang (restore workers gone, distributor still sending), which is a
@@ -243,7 +246,7 @@ func (l *c11Life) offered(h c11Holder, id string) bool {
 	}
 }
 
-var c11LifeProbes = []string{"read", "write", "kvwrite", "tokencreate", "login"}
+var c11LifeProbes = []string{"read", "write", "kvwrite", "tokencreate", "login", "lklogin"}
 
 // probe sends the probe requests to the core and judges them against the devices the core lists.
 func (l *c11Life) probe(v *vCore, caseID, label string, step int, history []string, seed int64) {
@@ -319,6 +322,9 @@ func (l *c11Life) probeHdr(v *vCore, caseID, label string, step int, history []s
 			req = &logical.Request{Operation: logical.UpdateOperation, Path: "auth/token/create", ClientToken: v.Root, Data: map[string]any{"policies": []string{"default"}, "ttl": "1h"}}
 		case "login":
 			req = &logical.Request{Operation: logical.UpdateOperation, Path: "auth/vcred/login", Data: reqData}
+		case "lklogin":
+			reqData["username"], reqData["password"] = "u"+rng.Canary(), "good"+rng.Canary()
+			req = &logical.Request{Operation: logical.UpdateOperation, Path: "auth/vuserpass/login", Data: reqData}
 		}
 		fc := &c11FaultCtx{sc: sc, step: step, st: c11FaultStep{Kind: kind}, info: info}
 		r.Eval(1)
@@ -400,6 +406,7 @@ func (l *c11Life) run(seed int64) {
 		{"mount vrec", &logical.Request{Operation: logical.UpdateOperation, Path: "sys/mounts/vrec", Data: map[string]any{"type": "c11rec"}}},
 		{"mount vkv", &logical.Request{Operation: logical.UpdateOperation, Path: "sys/mounts/vkv", Data: map[string]any{"type": "kv"}}},
 		{"enable vcred", &logical.Request{Operation: logical.UpdateOperation, Path: "sys/auth/vcred", Data: map[string]any{"type": "c11cred"}}},
+		{"enable vuserpass", &logical.Request{Operation: logical.UpdateOperation, Path: "sys/auth/vuserpass", Data: map[string]any{"type": "userpass"}}},
 		{"audited header", &logical.Request{Operation: logical.UpdateOperation, Path: "sys/config/auditing/request-headers/X-Verif-Secret", Data: map[string]any{"hmac": true}}},
 	} {
 		s.req.ClientToken = main.Root
